@@ -59,11 +59,14 @@ theorem witBits_idx {ar : Arrows} {idx : List Nat} {r : Witnesses} (hc : Covers 
 
 /-- arrows satisfying the typing rules + one typed value per witness node ⇒ everything elaboration
 needs -/
-theorem elabHyp_of {p : Plan} {ar : Arrows} {r : Witnesses} (re : RunEnv) (hok : planOK p = true)
-    (hsz : ar.size = p.size)
-    (hrules : ∀ i nd, p[i]? = some nd → NodeRule ar (srcOf ar i) (tgtOf ar i) nd)
-    (hc : Covers (witnessIdx p) r) (ht : WitnessTyped ar r) : ElabHyp (envOf p ar r re) where
+theorem elabHyp_of {jt : JetTypes} {p : Plan} {ar : Arrows} {r : Witnesses} (re : RunEnv)
+    (hok : planOK p = true) (hsz : ar.size = p.size)
+    (hrules : ∀ i nd, p[i]? = some nd → NodeRule jt ar (srcOf ar i) (tgtOf ar i) nd)
+    (hc : Covers (witnessIdx p) r) (ht : WitnessTyped ar r) : ElabHyp jt (envOf p ar r re) where
   rules := hrules
+  nohidden := fun i h hnd => by
+    have := planOK_node hok hnd
+    simp [nodeOK] at this
   back := fun _ _ hnd => nodeOK_children (planOK_node hok hnd)
   size := hsz
   wit := fun i hi => by
@@ -72,7 +75,7 @@ theorem elabHyp_of {p : Plan} {ar : Arrows} {r : Witnesses} (re : RunEnv) (hok :
 
 theorem routeU_elabHyp {jt : JetTypes} {p : Plan} {program : Bool} {cand : Nat → Option Val}
     {ar : Arrows} {r : Witnesses} (re : RunEnv) (hok : planOK p = true)
-    (h : routeU jt p program cand = .ok ar r) : ElabHyp (envOf p ar r re) := by
+    (h : routeU jt p program cand = .ok ar r) : ElabHyp jt (envOf p ar r re) := by
   obtain ⟨hi, hf⟩ := routeU_ok h
   obtain ⟨hc, ht⟩ := convertAll_spec hf
   obtain ⟨hsz, hrules, _⟩ := infer_rules hi hok
